@@ -133,6 +133,7 @@ func ProvidePG(db *DB, l *Logger) *PG    { return &PG{} }
 func NewApp(r Repo, l *Logger) *App      { return &App{} }
 func NewAppS(s *Service) *App            { return &App{} }
 func NewAppN(name string, l *Logger) *App { return &App{} }
+func NewAppNP(name string, port int, l *Logger) *App { return &App{} }
 `
 
 func feature(name, desc, wire string, injectors ...string) *Config {
@@ -238,6 +239,17 @@ func InitCache() *Cache {
 	return nil
 }
 `, "InitApp", "InitCache"))
+	out = append(out, feature("fieldsof-nested", "FieldsOf of one struct at the list's own level and in a later inline nested set", `
+func InitApp() *App {
+	wire.Build(NewConfig, wire.FieldsOf(new(*Config), "Name"), wire.NewSet(wire.FieldsOf(new(*Config), "Port"), NewLogger), NewAppNP)
+	return nil
+}
+
+func InitApp2() *App {
+	wire.Build(NewConfig, wire.NewSet(wire.FieldsOf(new(*Config), "Port"), NewLogger), wire.FieldsOf(new(*Config), "Name"), NewAppNP)
+	return nil
+}
+`, "InitApp", "InitApp2"))
 	out = append(out, feature("interface-value", "InterfaceValue", `
 func InitApp() *App {
 	wire.Build(wire.InterfaceValue(new(Repo), pg), NewLogger, NewApp)
